@@ -21,7 +21,12 @@ type PC struct {
 // ModelPoint draws an affine model point from the whole group of order 8l.
 func (r *Rand) ModelPoint() (ref.Pt, string) {
 	T := ref.Torsion()
-	switch r.Intn(20) {
+	switch r.Intn(24) {
+	case 20, 21, 22, 23:
+		if m, cl, ok := r.StructuredCoordinatePoint(); ok {
+			return m, cl
+		}
+		return r.DecodedPoint(), "decoded-uniform"
 	case 0:
 		return ref.Identity(), "identity"
 	case 1:
@@ -179,4 +184,38 @@ func K1Identity() *edwards25519.Point {
 		panic(err)
 	}
 	return p
+}
+
+// StructuredCoordinatePoint looks for a curve point one of whose affine coordinates is a
+// structured field value: a small integer, p minus a small integer, a power of two (+-1), a
+// limb pattern or another named class value. About half of all candidates are coordinates of
+// some point; a few are tried.
+func (r *Rand) StructuredCoordinatePoint() (ref.Pt, string, bool) {
+	for try := 0; try < 8; try++ {
+		var v *big.Int
+		var cl string
+		switch r.Intn(5) {
+		case 0:
+			v, cl = big.NewInt(int64(r.Intn(1<<20))), "small"
+		case 1:
+			v, cl = big.NewInt(int64(r.Intn(400))), "tiny"
+		case 2:
+			v, cl = new(big.Int).Sub(ref.P, big.NewInt(int64(1+r.Intn(1<<16)))), "p-small"
+		case 3:
+			v, cl = r.BigBits(1+r.Intn(60)), "short"
+		default:
+			fc := fieldClasses[r.Intn(len(fieldClasses))]
+			v, cl = fc.V, fc.Class
+		}
+		if r.Bool() {
+			if m, ok := ref.FromX(v, r.Bool()); ok {
+				return m, "x=" + cl, true
+			}
+		} else {
+			if m, ok := ref.FromY(v, r.Bool()); ok {
+				return m, "y=" + cl, true
+			}
+		}
+	}
+	return ref.Pt{}, "", false
 }
